@@ -120,13 +120,15 @@ Fixpoint pelapsed (ops : list pop) : Z :=
 (* the answers given to the requests on this key, in order *)
 Fixpoint answers (ops : list pop) (rs : list pobs) : list pobs :=
   match ops, rs with
-  | PTake k _ :: ops', r :: rs' => if bulk_eqb key k then r :: answers ops' rs' else answers ops' rs'
+  | PTake k _ :: ops', r :: rs' | PTakeF k _ :: ops', r :: rs' =>
+    if bulk_eqb key k then r :: answers ops' rs' else answers ops' rs'
   | _ :: ops', _ :: rs' => answers ops' rs'
   | _, _ => []
   end.
 
 (* what they must be: the request that makes the counter n+1 gets code_of (n+1); a request that
-   does not reach Redis (outage, breaker open) gets (Unknown, error) and is not counted *)
+   does not reach Redis (outage, breaker open) gets (Unknown, error) and is not counted; a
+   faulted request (context done, forged reply) gets the wrapper's answer and is not counted *)
 Fixpoint expect (n : Z) (down : bool) (ops : list pop) : list pobs :=
   match ops with
   | [] => []
@@ -135,6 +137,7 @@ Fixpoint expect (n : Z) (down : bool) (ops : list pop) : list pobs :=
     then if (down || negb brk)%bool then PAns Unknown true :: expect n down ops'
          else PAns (code_of (n + 1) q) false :: expect (n + 1) down ops'
     else expect n down ops'
+  | PTakeF k f :: ops' => if bulk_eqb key k then pfault_ans f :: expect n down ops' else expect n down ops'
   | PDown :: ops' => expect n true ops'
   | PUp :: ops' => expect n false ops'
   | _ :: ops' => expect n down ops'
@@ -168,7 +171,7 @@ Proof.
   - cbn. repeat split; auto. lia.
   - cbn [forallb] in HQ. apply andb_true_iff in HQ. destruct HQ as [Hq HQ].
     pose proof (pelapsed_nonneg ops HQ) as Hel.
-    destruct o as [k brk|ms| | |k v|k]; cbn [prun pfinal pstep answers expect counted pelapsed] in *.
+    destruct o as [k brk|ms| | |k v|k|k f]; cbn [prun pfinal pstep answers expect counted pelapsed] in *.
     + destruct (bulk_eqb key k) eqn:EK.
       * apply bulk_eqb_eq in EK. subst k. cbn [andb].
         destruct (pdown s || negb brk)%bool eqn:Hd.
@@ -195,6 +198,8 @@ Proof.
       * destruct (IH (mkP (store_put (pstore s) k (mkEntry v None)) false) n E Hc) as [A [B [C D]]]; auto.
         cbn. now rewrite find_put_other.
     + cbn [fst]. destruct (IH s n E Hc) as [A [B [C D]]]; auto.
+    + cbn [fst snd]. destruct (IH s n E Hc) as [A [B [C D]]]; auto.
+      destruct (bulk_eqb key k); [rewrite A|]; auto.
 Qed.
 End Period.
 
